@@ -98,5 +98,8 @@ package types
 //@ modifies clientStore
 //@ ensures [processed-time] result == nil ==> kvget(clientStore, ProcessedTimeKey(cs.LatestHeight)) == sdk.Uint64ToBigEndian(uint64(blocktime(ctx).UnixNano()))
 
+// upgrading the client records the processing time of the installed consensus state too (C18: proofs at the
+// installed height verify once the delay has passed)
 // verif:func (ClientState).UpgradeState
+//@ ensures [processed-time] result == nil ==> kvget(store, ProcessedTimeKey(cs.LatestHeight)) == sdk.Uint64ToBigEndian(uint64(blocktime(ctx).UnixNano()))
 //@ nopanic dryrun
